@@ -3,7 +3,6 @@
 package v
 
 import (
-	"unsafe"
 	"encoding/json"
 	"fmt"
 	"os"
@@ -11,6 +10,7 @@ import (
 	"strings"
 	"sync"
 	"time"
+	"unsafe"
 )
 
 type replay struct {
@@ -252,3 +252,23 @@ func Follows(a, b []byte) bool {
 	return a != nil && b != nil && (len(b) == 0 || addr(a)+uintptr(len(a)) == addr(b))
 }
 func SameStart(a, b []byte) bool { return a != nil && b != nil && addr(a) == addr(b) }
+
+func And(c ...bool) bool {
+	for _, x := range c {
+		if !x {
+			return false
+		}
+	}
+	return true
+}
+
+func Or(c ...bool) bool {
+	for _, x := range c {
+		if x {
+			return true
+		}
+	}
+	return false
+}
+
+func Implies(a, b bool) bool { return !a || b }
